@@ -234,6 +234,7 @@ func genLifecycle() {
 	}
 	emit("stop", "stopLaunch")
 	emit("stopAllTasks", "stopDone")
+	genResultPath(&sb)
 	sb.WriteString("\nend PB.Gen.Lifecycle\n")
 	write("Lifecycle.lean", sb.String())
 }
